@@ -25,6 +25,8 @@ RustMar1(yr) ==
   IF yr >= 1970
   THEN (yr - 1970) * 365 + Trunc(yr - 1968, 4) - Trunc(yr - 1900, 100) + Trunc(yr - 1600, 400) + 59
   ELSE (yr - 1970) * 365 + Trunc(yr - 1972, 4) - Trunc(yr - 2000, 100) + Trunc(yr - 2000, 400) + (IF IsLeap(yr) THEN 1 ELSE 0) + 59
+\* the fix-up of a truncated quotient with a negative remainder used twice in UtcDateTime::from_timespec (seconds -> days, days -> cycles)
+FloorFix(a, b) == LET q == Trunc(a, b) IN IF a - b * q < 0 THEN q - 1 ELSE q
 Init == y \in Int
 Next == UNCHANGED y
 Lemmas ==
@@ -34,4 +36,5 @@ Lemmas ==
   /\ RustJan1(y) = DBY(y) - DBY(1970)                     \* both branches of the Rust formula, January
   /\ RustMar1(y) = DBY(y) - DBY(1970) + 59 + (IF IsLeap(y) THEN 1 ELSE 0)      \* ... and from March on
   /\ 146097 % 7 = 0
+  /\ FloorFix(y, 86400) = y \div 86400 /\ FloorFix(y, 146097) = y \div 146097      \* for every integer count of seconds / days
 =============================================================================
